@@ -183,7 +183,7 @@ struct SwapSim {
     // the library - every structural rule holds, including an honest DLEQ proof, except the one the type names. Verdicts must be
     // the documented predicate's (reference model); decrypt and recover must stay well defined on whatever verify accepted or not.
     void audit(const Op &o) {
-        int type = (int)(o.arg(0) % 7);
+        int type = (int)(o.arg(0) % 9);
         uint8_t xb[32], kb[32], db[32], msg[32], yb[32];
         fresh32(xb); xb[0] &= 0x7f; xb[31] |= 1; fresh32(kb); kb[0] &= 0x7f; kb[31] |= 1; fresh32(db); db[0] &= 0x7f; db[31] |= 1; fresh32(msg); fresh32(yb); yb[0] &= 0x7f; yb[31] |= 1;
         ref::U256 x = ref::U256::from_be(xb), kk = ref::U256::from_be(kb), dn = ref::U256::from_be(db), y = ref::U256::from_be(yb);
@@ -199,6 +199,14 @@ struct SwapSim {
         uint8_t sp[32]; ref::FN.mul(ref::FN.inv(kk), ref::FN.add(ref::scalar_from_be_reduce(msg), ref::FN.mul(rr, x))).to_be(sp);
         if (type == 2) memset(sp, 0, 32);
         if (type == 3) ref::FN.m.to_be(sp);
+        if (type == 7 || type == 8) {
+            // a tiny s' = t (the message is chosen for it): valid as it is (type 8); as t + n it still fits in 32 bytes and must be
+            // rejected as out of range (type 7) although it is the same residue
+            ref::U256 t((uint64_t)(1 + (o.arg(1) >> 1) % 200));
+            ref::FN.sub(ref::FN.mul(t, kk), ref::FN.mul(rr, x)).to_be(msg);
+            t.to_be(sp);
+            if (type == 7) { uint8_t nb[32]; ref::FN.m.to_be(nb); unsigned c = 0; for (int i = 31; i >= 0; i--) { unsigned v = (unsigned)sp[i] + nb[i] + c; sp[i] = (uint8_t)v; c = v >> 8; } }
+        }
         uint8_t a[162]; ref::adaptor_craft(kk, Y, sp, dn, a);
         ref::Pt Xv = X; uint8_t mv[32]; memcpy(mv, msg, 32);
         if (type == 4) Xv = ref::add(X, ref::G);
@@ -215,7 +223,7 @@ struct SwapSim {
         r.fault("crafted_adaptor." + std::to_string(type));
         if (!mon_quiet_since(mk)) { r.violate("C14", "callback", "secp256k1_ecdsa_adaptor_verify", "callback on a crafted adaptor signature"); return; }
         if ((v != 0) != mvd) { r.violate("C14", "verify_model", "secp256k1_ecdsa_adaptor_verify", std::string("crafted adaptor signature type ") + std::to_string(type) + ": library verdict " + std::to_string(v) + ", reference model " + std::to_string(mvd)); return; }
-        if ((type == 0) != mvd) { r.violate("C14", "model_selfcheck", "ref::adaptor_verify", "the crafted signature of type " + std::to_string(type) + " has an unexpected model verdict"); return; }
+        if ((type == 0 || type == 8) != mvd) { r.violate("C14", "model_selfcheck", "ref::adaptor_verify", "the crafted signature of type " + std::to_string(type) + " has an unexpected model verdict"); return; }
         r.probe(v ? "crafted_adaptor_accepted" : "crafted_adaptor_rejected");
         // decrypt / recover stay defined; for the honest craft they round-trip
         secp256k1_ecdsa_signature sig; uint8_t sb[64], dk[32];
@@ -225,7 +233,7 @@ struct SwapSim {
         int rc = L01(secp256k1_ecdsa_adaptor_recover(bctx, dk, &sig, in.p, &Yl));
         r.cmp();
         if (!mon_quiet_since(mk)) { r.violate("C14", "callback", "secp256k1_ecdsa_adaptor_decrypt", "callback on a crafted adaptor signature"); return; }
-        if (type == 0) {
+        if (type == 0 || type == 8) {
             if (!d || !ref::ecdsa_verify(X, msg, sb, sb + 32)) { r.violate("C14", "decrypted_invalid", "secp256k1_ecdsa_adaptor_decrypt", "an accepted crafted adaptor signature does not decrypt to a valid signature"); return; }
             if (!rc || memcmp(dk, yb, 32) != 0) { r.violate("C14", "recover_wrong", "secp256k1_ecdsa_adaptor_recover", "recover does not return the decryption key for a crafted, accepted adaptor signature"); return; }
         }
@@ -325,7 +333,7 @@ static Plan swap_generate(uint64_t seed, int) {
             p.ops.push_back(o);
         }
     }
-    { int na = (int)g.below(3); for (int i = 0; i < na; i++) { Op o; o.k = "audit"; o.a = {(int64_t)g.below(7), (int64_t)g.below(2)}; p.ops.push_back(o); } }
+    { int na = (int)g.below(3); for (int i = 0; i < na; i++) { Op o; o.k = "audit"; o.a = {(int64_t)g.below(9), (int64_t)g.below(1 << 12)}; p.ops.push_back(o); } }
     return p;
 }
 static void swap_execute(const Plan &p, const ExecOpts &, Result &r) { SwapSim w(p, r); w.run(); }
